@@ -185,9 +185,12 @@ type Solver struct {
 }
 
 var solvers = []Solver{
-	{"z3-new-5.1.0", []string{"z3-new", "-smt2"}},
-	{"z3-4.8.12", []string{"z3", "-smt2"}},
+	{"z3-new-5.1.0", []string{"z3-new", "-smt2", "smt.mbqi=true"}},
+	{"z3-4.8.12", []string{"z3", "-smt2", "smt.mbqi=true"}},
 	{"cvc5-1.0.3", []string{"cvc5", "--lang=smt2", "--produce-models"}},
+	// pure E-matching configurations: decide heavily quantified goals that MBQI wanders on
+	{"z3-new-5.1.0-ematch", []string{"z3-new", "-smt2", "smt.mbqi=false", "smt.auto_config=false"}},
+	{"z3-4.8.12-ematch", []string{"z3", "-smt2", "smt.mbqi=false", "smt.auto_config=false"}},
 }
 
 type SolveResult struct {
@@ -213,9 +216,6 @@ func solve(query string, timeout time.Duration, workdir string, tag string, want
 	for _, s := range solvers {
 		s := s
 		q := query
-		if strings.HasPrefix(s.Name, "cvc5") {
-			q = strings.Replace(q, "(set-option :smt.mbqi true)\n", "", 1)
-		}
 		f := base + "." + sanitizeFile(s.Name) + ".smt2"
 		if err := os.WriteFile(f, []byte(q), 0o644); err != nil {
 			return SolveResult{Status: "error", Output: err.Error()}
